@@ -512,6 +512,7 @@ PC08 == [][C08]_vars
 PC11 == [][C11]_vars
 PC12 == [][C12]_vars
 PC13 == [][C13 /\ C10hint]_vars
+PAudit == [][Audit]_vars
 PC15 == [][C15]_vars
 PC16 == [][C16]_vars
 
